@@ -68,6 +68,50 @@ func Bubble(t *testing.T, fn func()) (deadlock string, stacks string) {
 	return "", ""
 }
 
+// BubbleGuarded is Bubble for histories that can run into synctest's blind spot: a goroutine waiting for a sync.Mutex is
+// not durably blocked, so while one waits for a mutex whose holder sleeps on a timer (rueidis's sentinel client closes a
+// connection - up to one second - under its mutex while a refresh wants the same mutex) the bubble's clock stands still
+// for ever and the bubble never ends. After wall of REAL time without the bubble ending the goroutines are dumped: if one
+// of this bubble's goroutines is waiting for a mutex, the bubble is abandoned (its goroutines stay parked, later bubbles
+// are unaffected) and frozen is "mutex-wait" - a limit of the harness, never a verdict; otherwise frozen is "unknown"
+// and the dump is returned in stacks. The wall clock decides nothing about the property.
+func BubbleGuarded(t *testing.T, fn func(), wall time.Duration) (deadlock, stacks, frozen string) {
+	type out struct{ dl, st string }
+	ch := make(chan out, 1)
+	go func() {
+		dl, st := Bubble(t, fn)
+		ch <- out{dl, st}
+	}()
+	select {
+	case o := <-ch:
+		return o.dl, o.st, ""
+	case <-time.After(wall):
+	}
+	buf := make([]byte, 16<<20)
+	buf = buf[:runtime.Stack(buf, true)]
+	cur := -1
+	gs := strings.Split(string(buf), "\n\n")
+	for _, g := range gs {
+		if n := bubbleID(g); n > cur {
+			cur = n
+		}
+	}
+	var keep []string
+	mutex := false
+	for _, g := range gs {
+		if bubbleID(g) == cur && cur >= 0 {
+			keep = append(keep, g)
+			if head, _, _ := strings.Cut(g, "\n"); strings.Contains(head, "[sync.Mutex.Lock") || strings.Contains(head, "[sync.RWMutex.") {
+				mutex = true
+			}
+		}
+	}
+	if mutex {
+		return "", strings.Join(keep, "\n\n"), "mutex-wait"
+	}
+	return "", strings.Join(keep, "\n\n"), "unknown"
+}
+
 // RueidisFrames extracts, from a goroutine dump, the goroutines that are inside rueidis code, one summary line
 // each: the innermost rueidis function and its position (works for /repo and for scratch copies).
 func RueidisFrames(stacks string) []string {
